@@ -3,7 +3,7 @@
    (it is false of the faithful model in the deviation classes listed as known findings, and beyond
    those it is carried by the correspondence and the Spec oracle); what is proved for all charts,
    configurations, events and datamodel states are the invariants below. *)
-From V Require Import Base NameMatch Chart Exec Large LargeLemmas Interp LargeCache LargeCacheLemmas.
+From V Require Import Base NameMatch Chart Exec Large LargeLemmas Interp LargeCache LargeCacheLemmas Spec ExitSetLemmas.
 
 (* the transition set selected in one microstep is conflict-free: no two selected transitions have
    overlapping exit sets (Appendix D: removeConflictingTransitions) *)
@@ -66,3 +66,35 @@ Proof.
   vm_compute. discriminate.
 Qed.
 Print Assumptions caches_get_filled.
+
+(* ---- the exit set is the one Appendix D prescribes ----
+   For every document and every transition none of whose targets is a <history> state, the transition
+   domain the engine computes (nearest compound ancestor containing all targets, found on index intervals)
+   is Appendix D's getTransitionDomain, and the states the engine exits for it (the active states numbered
+   in the domain's interval) are exactly Appendix D's computeExitSet.  With a history target both statements
+   are false (known finding C01-K5): the engines measure the domain from the <history> element, Appendix D
+   from its effective targets. *)
+Theorem domain_agrees : forall late t0 ti h, let c := flatten late t0 in
+  ti < ntrans c -> targets_plain c ti ->
+  Large.domain c (tr c ti) = Spec.transition_domain c h (tr c ti).
+Proof. exact domain_agrees_lemma. Qed.
+Print Assumptions domain_agrees.
+
+Theorem exit_set_agrees : forall late t0 ti cfg h, let c := flatten late t0 in
+  ti < ntrans c -> (forall s, In s cfg -> s < nstates c) -> targets_plain c ti ->
+  forall s, In s (Large.exit_states_of lg_fixed c cfg (tr c ti)) <-> In s (Spec.compute_exit_set c cfg h [tr c ti]).
+Proof. exact exit_set_agrees_lemma. Qed.
+Print Assumptions exit_set_agrees.
+
+Theorem domain_agrees_history_refuted :
+  exists late t0 ti h, let c := flatten late t0 in
+    ti < ntrans c /\ Large.domain c (tr c ti) <> Spec.transition_domain c h (tr c ti).
+Proof. exact ExitSetLemmas.domain_agrees_history_refuted. Qed.
+Print Assumptions domain_agrees_history_refuted.
+
+Theorem exit_set_agrees_history_refuted :
+  exists late t0 ti cfg h, let c := flatten late t0 in
+    ti < ntrans c /\ (forall s, In s cfg -> s < nstates c) /\
+    exists s, In s (Large.exit_states_of lg_fixed c cfg (tr c ti)) /\ ~ In s (Spec.compute_exit_set c cfg h [tr c ti]).
+Proof. exact ExitSetLemmas.exit_set_agrees_history_refuted. Qed.
+Print Assumptions exit_set_agrees_history_refuted.
